@@ -235,7 +235,7 @@ class Interp:
 
     def builtin_name(self, name):
         if name in ("len", "int", "str", "bytes", "bool", "isinstance", "type", "hasattr", "pow", "list", "iter",
-                    "sorted", "repr", "range", "bin", "tuple", "min", "max", "abs", "divmod", "object"):
+                    "sorted", "repr", "range", "bin", "tuple", "min", "max", "abs", "divmod", "object", "setattr", "getattr", "zip", "enumerate"):
             return SBuiltin(name)
         if name in BUILTIN_EXC:
             return SBuiltin("exc:" + name)
@@ -489,6 +489,10 @@ class Interp:
         if isinstance(op, (ast.FloorDiv, ast.Mod)):
             if isinstance(op, ast.Mod) and isstrlike(a):
                 return self.str_format(a, b)
+            if isinstance(op, ast.Mod) and isinstance(a, bytes):
+                # bytes %-formatting with the same directives: b"%064x" % n == ("%064x" % n).encode("ascii")
+                r = self.str_format(a.decode("ascii"), b)
+                return SBytes(r.t) if isinstance(r, SStr) else r.encode("ascii")
             if isintlike(a) and isintlike(b):
                 bt = I(b)
                 if not pure:
@@ -868,6 +872,8 @@ class Interp:
             return SBuiltin(v.kind + "." + name, v)
         if isinstance(v, SBuiltin) and v.name == "int" and name == "from_bytes":
             return SBuiltin("int.from_bytes")
+        if isinstance(v, SBuiltin) and v.name == "int" and name == "to_bytes":
+            return SBuiltin("int.to_bytes_unbound")
         if isinstance(v, SBuiltin) and v.name == "bytes" and name == "fromhex":
             return SBuiltin("bytes.fromhex")
         raise Unsupported("attribute %s of %r" % (name, v))
@@ -1049,7 +1055,11 @@ class Interp:
         args = []
         for a in node.args:
             if isinstance(a, ast.Starred):
-                raise Unsupported("star args")
+                seq = self.eval(a.value, frame, pure)
+                if not isinstance(seq, (list, tuple)):
+                    raise Unsupported("star args of a symbolic sequence")
+                args.extend(seq)
+                continue
             args.append(self.eval(a, frame, pure))
         kwargs = {}
         for k in node.keywords:
@@ -1126,9 +1136,12 @@ class Interp:
     def bind_args(self, finfo, args, kwargs, frame_module):
         a = finfo.node.args
         names = [x.arg for x in a.posonlyargs + a.args]
-        if a.vararg or a.kwarg or a.kwonlyargs:
-            raise Unsupported("varargs in %s" % finfo.qual)
+        if a.kwarg or a.kwonlyargs:
+            raise Unsupported("**kwargs / keyword-only parameters in %s" % finfo.qual)
         env = {}
+        if a.vararg:
+            env[a.vararg.arg] = tuple(args[len(names):])
+            args = args[:len(names)]
         if len(args) > len(names):
             raise Raise("TypeError")
         for n, v in zip(names, args):
